@@ -7,6 +7,7 @@ from __future__ import annotations
 
 import ctypes
 import dis
+import os
 import sys
 from dataclasses import dataclass, field, replace
 from typing import Callable, Generic, Hashable, Iterable, Optional, Tuple, TypeVar
@@ -191,6 +192,9 @@ def blocks_to_bytes(
     if isinstance(block_type, Function) and block_type.docstring is not None:
         constants[0] = block_type.docstring
 
+    if _VERIF_TRACE:
+        _verif_relax_log.append(("begin", sum(map(len, blocks))))
+
     # Iterate through all blocks and change jump instructions to offsets
     while changed_instruction_lengths:
 
@@ -245,6 +249,19 @@ def blocks_to_bytes(
                     ):
                         changed_instruction_lengths = True
                     args[block_index, instruction_index] = new_arg_value
+        if _VERIF_TRACE:
+            _verif_relax_log.append(
+                (
+                    "pass",
+                    [
+                        args[b, i]
+                        for b, block in enumerate(blocks)
+                        for i, instruction in enumerate(block)
+                        if isinstance(instruction.arg, Jump)
+                    ],
+                    changed_instruction_lengths,
+                )
+            )
 
     # Process all additional arg to record their values
     for arg in additional_args:
@@ -470,6 +487,12 @@ def verify_block(blocks: Blocks) -> None:
             if isinstance(arg, Jump):
                 assert arg.target in range(len(blocks)), "Jump target is out of range"
 
+
+# Verification hook: with CODE_DATA_VERIF set, every pass of the jump relaxation loop in
+# blocks_to_bytes is recorded here (the jump args after the pass and whether another
+# pass is needed), for a trace checker to drain. Off by default.
+_VERIF_TRACE = bool(os.environ.get("CODE_DATA_VERIF"))
+_verif_relax_log: list = []
 
 # Bytecode instructions jumps refer to the instruction offset, instead of byte
 # offset in Python >= 3.10 due to this PR https://github.com/python/cpython/pull/25069
